@@ -11,10 +11,12 @@ import (
 	"verifharness/internal/evid"
 )
 
-// TestC33_TornReadWitness_Race is the witness of C33/unlocked-read-of-amount-mutated-in-place:
-// PutRetrieveTraffic(p) directly followed by Pay(p), i.e. issue() mutating the cheque
-// amount while the PublishHeader goroutine of the update reads it. The outcome (a race
-// report, possibly a crash) is fatal for a -race binary, so it runs in a child process.
+// TestC33_TornReadWitness_Race is the witness of C33/unlocked-reads-of-per-peer-amounts:
+// PutRetrieveTraffic(p) directly followed by Pay(p), i.e. Pay writing the cheque amount
+// under the peer lock while the PublishHeader goroutine of the update reads it in
+// TrafficInfo under the map lock only. A race report is fatal for a -race binary, so the
+// witness runs in a child process. (Before repo commit 571c813 the amount was also
+// modified in place and this pair could crash the process with a torn big.Int.)
 func TestC33_TornReadWitness_Race(t *testing.T) {
 	if os.Getenv("C33_WITNESS_CHILD") == "1" {
 		witnessChild(t)
@@ -22,7 +24,7 @@ func TestC33_TornReadWitness_Race(t *testing.T) {
 	}
 	r := evid.Get(id)
 	evid.Finish(t, r)
-	if !raceOn || !evid.Known(sigTorn) || os.Getenv("VERIF_REPLAY_ONLY") == "1" {
+	if !raceOn || !evid.Known(sigRace) || os.Getenv("VERIF_REPLAY_ONLY") == "1" {
 		return
 	}
 	exe, err := os.Executable()
@@ -41,7 +43,7 @@ func TestC33_TornReadWitness_Race(t *testing.T) {
 	out, _ := cmd.CombinedOutput()
 	racy := bytes.Contains(out, []byte("DATA RACE")) || bytes.Contains(out, []byte("nil pointer dereference"))
 	if racy && bytes.Contains(out, []byte("traffic.(*Service).TrafficInfo")) {
-		r.Witness(sigTorn)
+		r.Witness(sigRace)
 		r.Class("race:witness-update-then-pay-still-racy")
 	} else {
 		r.Class("race:witness-update-then-pay-clean")
